@@ -43,6 +43,14 @@ def main(argv):
                         scripts.append({"recv_fault": (pos, bk), "chunk": "bytes" if pos % 2 else "rand"})
             if kind not in ("Client", "Pooled") and not ctx.thorough:
                 scripts = scripts[::2]
+            # an ordinary failure whose clean-up (the close() of the socket) is itself interrupted
+            if has_reply(call):
+                for bk in BASE_KINDS:
+                    for mut in ("server-error", "garbage-line", "truncate-timeout"):
+                        scripts.append({"mutation": mut, "close_fault": bk, "chunk": "bytes"})
+                        scripts.append({"mutation": mut, "close_fault": bk, "close_leaves_open": True, "chunk": "bytes"})
+                    scripts.append({"recv_fault": (1, "reset"), "close_fault": bk, "chunk": "bytes"})
+                    scripts.append({"recv_fault": (1, "timeout"), "close_fault": bk, "close_leaves_open": True, "chunk": "bytes"})
             for si, script in enumerate(scripts):
                 for warm in (False, True):
                     seq = []
@@ -67,7 +75,7 @@ def main(argv):
                         return o
                     C01.mk = mk_obs
                     try:
-                        ok = run_sequence(ctx, real_kind, classes, seq, rng, model_lines if kind == "Client" else None, model_meta)
+                        ok = run_sequence(ctx, real_kind, classes, seq, rng, model_lines if (kind == "Client" and "close_fault" not in script) else None, model_meta)
                     finally:
                         C01.mk = orig_mk
                     n += 1
